@@ -54,6 +54,11 @@ CLAIMS = {
         'Tie: reader model vs kalign_read_input of the ASan+UBSan build on a corpus of minimised past failures + byte/line mutations of valid files in three formats; every accepted input aligned under the sanitizers with random types, penalties and output formats (result must be FAIL or a valid alignment of what was read); the ASan+LSan command-line binary under generated option strings, missing inputs and unwritable outputs: exit status vs the model, no leak report on success, a message on failure; valgrind sample in the thorough tier.',
    note=TRUST + 'What only the machine can show - allocator state, real uninitialised bytes, int overflow, libc/libgomp internals, malloc failure - is covered by the sanitizer and valgrind runs, which are tests, not proofs. The DP kernels\' index ranges are not modelled yet (C01 layer 2). Known finding: penalties >= 1e37 crash (known_findings.json C05-huge-gap-penalty). Nine C05 defects were found and repaired (known_findings.json, fixed:).',
    tech='Coq proof (index ranges, reader outcome, exit-status logic) + reader/CLI model correspondence against the ASan/UBSan/LSan builds'),
+ 'C16': dict(
+   text='Theorems over the state-machine model of the library (History.v: a store of msa objects addressed by handles, an explicit ambient state - OpenMP thread count, broadcast-mask table, heap garbage -, one step per public call wired to the reader / kalign_run / writer / comparison models), for EVERY numeric pipeline that reads of the ambient state at most what kalign_run sets itself before starting it: the ambient state left by earlier calls influences neither result nor objects (C16_ambient_state_is_irrelevant); a call leaves objects it does not name untouched and its result depends only on the objects it names (C16_frame, C16_locality); after ANY finite history a call returns what it returns in a fresh process that made only the calls of its backward slice (C16_history, induction over the history); once every handle is freed no object is left (C16_ledger). '
+        'Tie: random histories of 3..30 calls over 4 handles (read of 1..3 inputs incl. malformed/missing ones, run with varying type/penalties/threads, write, compare, free, kalign()), all executed back to back in one process; every call is repeated in a fresh process with its slice and the result tokens (status + digest of records / rows / file bytes / score bits) must be equal; ledger: each history twice in a build without OpenMP whose allocator is interposed - live blocks after freeing every handle must be back to the start, and the second run must repeat the first.',
+   note=TRUST + 'The premise reads_prepared_only and the claim that the per-call models take nothing but their argument objects are modelling claims tested by the history runs, not proved about the C. The slice used by the harness is a Python restatement of History.slice. The ledger theorem is at object granularity; block-level accounting is the interposed-allocator test (libgomp excluded by linking without OpenMP). Three defects found by this check were repaired (known_findings.json).',
+   tech='Coq proof (frame + locality + induction over histories) + history-vs-fresh-process differential runs + interposed allocation ledger'),
  'C11': dict(
    text='PARTIAL. The full statements (bpm_block = sed on the first 1024 pattern symbols; bpm/bpm_256 = sed up to 63/255) are written in Properties_C11.v as Definitions, not yet theorems; proved so far are only basic facts of the specification. '
         'What decides the property on every run: literal executable models of bpm_block, bpm and bpm_256 (lane-level add256 and 256-bit shift included) are compared with the implementation on both the AVX2 and the scalar build, and the implementation is compared with the extracted specification sed, exhaustively for alphabets {2,3} and small lengths (17k cases) and at random around every multiple of 64 up to the 1024 cap.',
